@@ -759,6 +759,44 @@ class SubjectAnalysis:
                     self.add('SUB.3', ok, f'{short}::operator() row (muted={muted}, valid={valid}): the stored function is called iff not muted and valid', inv[0].site if inv else f.shortloc(),
                              '' if ok else (f'the function is invoked although the observer is {"muted" if muted else "invalid"}' if inv else 'a valid, unmuted observer is not invoked'), key='SUB.3|guard')
             self.n_ops = len(ops)
+        self._mute_writers()
+
+    def _mute_writers(self):
+        """SUB.3: the mute state belongs to the observer's user: the Subject never clears (or overwrites) it — an observer that is muted when it is
+        handed over, or muted later through its handle, stays muted until its user unmutes it"""
+        im = [f for f in self.facts.fns if f.gname == 'tulz::Observer::isMuted']
+        if not im: return
+        flag = None
+        for n in im[0].nodes():
+            if n.k == 'return':
+                x = n.n('sub')
+                while x is not None and x.k in ('cast', 'paren') and x.n('sub') is not None: x = x.n('sub')
+                if x is not None and x.k == 'member': flag = x.name
+        if flag is None: return
+        clears = {}
+        for g in self.facts.fns:
+            if strip_targs(g.d.get('classfull') or '') != 'tulz::Observer' or g.d.get('lambda') or g.d.get('ctor'): continue
+            for n in g.nodes():
+                if n.k == 'binop' and n.op == '=' and n.n('lhs') is not None and n.n('lhs').k == 'member' and n.n('lhs').name == flag:
+                    r = n.n('rhs')
+                    while r is not None and r.k in ('cast', 'paren') and r.n('sub') is not None: r = r.n('sub')
+                    val = r.d.get('v', r.d.get('const')) if r is not None and r.k in ('bool', 'int') else None
+                    if val in (True, 1): continue
+                    clears[g.name] = (g, n, 'clears' if val in (False, 0) else 'overwrites')
+        n_sites = 0
+        for S in self.subs:
+            for h in self.facts.fns:
+                if h.d.get('classfull') != S and not (h.d.get('lambda') and False): continue
+                for n in h.nodes():
+                    if n.k != 'call' or not n.callee_in_root: continue
+                    for t in self.facts.resolve(n):
+                        if t.name in clears:
+                            g, wn, how = clears[t.name]
+                            n_sites += 1
+                            self.add('SUB.3', False, f'{S}: the Subject leaves the mute state of its observers alone', n.shortloc(),
+                                     f'{h.name.split("::")[-1]}() calls {t.name.split("::")[-1]}(), which {how} the observer\'s mute flag (`{wn.text()[:40]}`): an observer that its user has muted '
+                                     f'(before handing it over, or through a handle) is delivered to again although nobody unmuted it', key=f'SUB.3|mute-writer|{h.gname}')
+        if not n_sites: self.add('SUB.3', True, 'no member function of Subject clears or overwrites an observer\'s mute flag', im[0].shortloc(), key='SUB.3|mute-writer')
 
     # ---- Subscription ------------------------------------------------------------------------------------------------------------
     def subscription_rules(self):
